@@ -17,6 +17,10 @@ type shOp struct {
 	O    int    `json:"o,omitempty"`
 	K    string `json:"k,omitempty"`
 	V    int64  `json:"v,omitempty"`
+	// VN: the value (Put, Compute: what the mapping function returns, GetOrDefault: the default) is the Go value nil
+	// (V is ignored); V2N: the same for V2
+	VN  bool `json:"vn,omitempty"`
+	V2N bool `json:"v2n,omitempty"`
 	// ComputePut: the mapping function puts K2 => V2 into the same hash before it returns V
 	K2 string `json:"k2,omitempty"`
 	V2 int64  `json:"v2,omitempty"`
@@ -35,7 +39,35 @@ type shAct struct {
 	A    string `json:"a,omitempty"`
 	K    string `json:"k,omitempty"`
 	V    int64  `json:"v,omitempty"`
+	VN   bool   `json:"vn,omitempty"` // the value is nil
 	Stop bool   `json:"stop,omitempty"`
+}
+
+// a value of the hash: the nil interface or an int64
+func mkVal(isNil bool, v int64) interface{} {
+	if isNil {
+		return nil
+	}
+	return v
+}
+func (o shOp) val() interface{}  { return mkVal(o.VN, o.V) }
+func (o shOp) val2() interface{} { return mkVal(o.V2N, o.V2) }
+func (a shAct) val() interface{} { return mkVal(a.VN, a.V) }
+
+// gVal: a value as a Gallina term of type val (Model/StringHash.v)
+func gVal(x interface{}) string {
+	if x == nil {
+		return "VNil"
+	}
+	return "(VInt " + lib.GZ(x.(int64)) + ")"
+}
+
+// tVal: a value as text
+func tVal(x interface{}) string {
+	if x == nil {
+		return "nil"
+	}
+	return fmt.Sprint(x.(int64))
 }
 
 func (a shAct) gallina() string {
@@ -46,9 +78,9 @@ func (a shAct) gallina() string {
 	case "del":
 		t = "ADel " + lib.GStr(a.K)
 	case "put":
-		t = fmt.Sprintf("APut %s %s", lib.GStr(a.K), lib.GZ(a.V))
+		t = fmt.Sprintf("APut %s %s", lib.GStr(a.K), gVal(a.val()))
 	case "compute":
-		t = fmt.Sprintf("ACompute %s %s", lib.GStr(a.K), lib.GZ(a.V))
+		t = fmt.Sprintf("ACompute %s %s", lib.GStr(a.K), gVal(a.val()))
 	default:
 		panic("bad act " + a.A)
 	}
@@ -61,9 +93,9 @@ func (a shAct) String() string {
 	case "del":
 		t = fmt.Sprintf("Delete(%q)", a.K)
 	case "put":
-		t = fmt.Sprintf("Put(%q,%d)", a.K, a.V)
+		t = fmt.Sprintf("Put(%q,%s)", a.K, tVal(a.val()))
 	case "compute":
-		t = fmt.Sprintf("ComputeIfAbsent(%q,%d)", a.K, a.V)
+		t = fmt.Sprintf("ComputeIfAbsent(%q,%s)", a.K, tVal(a.val()))
 	}
 	if a.Stop {
 		t += "+stop"
@@ -87,21 +119,21 @@ func (o shOp) gallina() string {
 	case "New":
 		return "ONew"
 	case "Put":
-		return fmt.Sprintf("OPut %d %s %s", o.H, lib.GStr(o.K), lib.GZ(o.V))
+		return fmt.Sprintf("OPut %d %s %s", o.H, lib.GStr(o.K), gVal(o.val()))
 	case "Delete":
 		return fmt.Sprintf("ODelete %d %s", o.H, lib.GStr(o.K))
 	case "Get":
 		return fmt.Sprintf("OGet %d %s", o.H, lib.GStr(o.K))
 	case "GetOrDefault":
-		return fmt.Sprintf("OGetOrDefault %d %s %s", o.H, lib.GStr(o.K), lib.GZ(o.V))
+		return fmt.Sprintf("OGetOrDefault %d %s %s", o.H, lib.GStr(o.K), gVal(o.val()))
 	case "Includes":
 		return fmt.Sprintf("OIncludes %d %s", o.H, lib.GStr(o.K))
 	case "Compute":
-		return fmt.Sprintf("OCompute %d %s %s", o.H, lib.GStr(o.K), lib.GZ(o.V))
+		return fmt.Sprintf("OCompute %d %s %s", o.H, lib.GStr(o.K), gVal(o.val()))
 	case "ComputePanic":
 		return fmt.Sprintf("OComputePanic %d %s", o.H, lib.GStr(o.K))
 	case "ComputePut":
-		return fmt.Sprintf("OComputePut %d %s %s %s %s", o.H, lib.GStr(o.K), lib.GZ(o.V), lib.GStr(o.K2), lib.GZ(o.V2))
+		return fmt.Sprintf("OComputePut %d %s %s %s %s", o.H, lib.GStr(o.K), gVal(o.val()), lib.GStr(o.K2), gVal(o.val2()))
 	case "Copy":
 		return fmt.Sprintf("OCopy %d", o.H)
 	case "Merge":
@@ -137,11 +169,11 @@ func (o shOp) String() string {
 	case "New":
 		return "New"
 	case "Put", "Compute", "GetOrDefault":
-		return fmt.Sprintf("%s(h%d,%q,%d)", o.Kind, o.H, o.K, o.V)
+		return fmt.Sprintf("%s(h%d,%q,%s)", o.Kind, o.H, o.K, tVal(o.val()))
 	case "Delete", "Get", "Includes", "ComputePanic":
 		return fmt.Sprintf("%s(h%d,%q)", o.Kind, o.H, o.K)
 	case "ComputePut":
-		return fmt.Sprintf("ComputePut(h%d,%q,%d,producer puts %q=>%d)", o.H, o.K, o.V, o.K2, o.V2)
+		return fmt.Sprintf("ComputePut(h%d,%q,%s,producer puts %q=>%s)", o.H, o.K, tVal(o.val()), o.K2, tVal(o.val2()))
 	case "Merge", "PutAll", "Equals":
 		return fmt.Sprintf("%s(h%d,h%d)", o.Kind, o.H, o.O)
 	case "NewCap":
@@ -160,14 +192,13 @@ func (o shOp) String() string {
 // used by the Go-side comparison with the reference map.
 type shOut string
 
-func optVal(present bool, v int64) string { return lib.GOpt(present, lib.GZ(v), "Z") }
+// flagged: the result of a method that returns a presence flag next to the value (Get, Put): the value of a present
+// key - nil included - is Some, absence None
+func flagged(present bool, x interface{}) string { return lib.GOpt(present, gVal(x), "val") }
 
-func ifaceVal(x interface{}) (bool, int64) {
-	if x == nil {
-		return false, 0
-	}
-	return true, x.(int64)
-}
+// bare: the result of a method that returns a bare interface{} (Delete, GetOrDefault, ComputeIfAbsent): a Go caller
+// cannot tell the value nil of a present key from "nothing" (Model/StringHash.v go_view)
+func bare(x interface{}) shOut { return shOut("RVal " + lib.GOpt(x != nil, gVal(x), "val")) }
 
 // applyImpl runs one operation on the real implementation, recovering panics.
 func applyImpl(objs *[]hash.StringHash, o shOp) (res shOut) {
@@ -197,7 +228,7 @@ func applyImpl(objs *[]hash.StringHash, o shOp) (res shOut) {
 	case "Iter":
 		// the callback re-enters the hash it is called from
 		var ks []string
-		var vs []int64
+		var vs []interface{}
 		lastIterVals = nil
 		n := 0
 		do := func() bool {
@@ -210,15 +241,15 @@ func applyImpl(objs *[]hash.StringHash, o shOp) (res shOut) {
 			case "del":
 				h.Delete(a.K)
 			case "put":
-				h.Put(a.K, a.V)
+				h.Put(a.K, a.val())
 			case "compute":
-				v := a.V
+				v := a.val()
 				h.ComputeIfAbsent(a.K, func() interface{} { return v })
 			}
 			return a.Stop
 		}
 		seeV := func(v interface{}) {
-			vs = append(vs, v.(int64))
+			vs = append(vs, v)
 			lastIterVals = vs
 		}
 		res := true
@@ -238,28 +269,26 @@ func applyImpl(objs *[]hash.StringHash, o shOp) (res shOut) {
 		}
 		return iterOut(ks, vs, res)
 	case "Put":
-		old, rep := h.Put(o.K, o.V)
-		p, v := ifaceVal(old)
-		return shOut(fmt.Sprintf("RPut %s %s", optVal(p, v), lib.GBool(rep)))
+		old, rep := h.Put(o.K, o.val())
+		if !rep && old != nil {
+			return "RFault (* Put: an old value although nothing was replaced *)"
+		}
+		return shOut(fmt.Sprintf("RPut %s %s", flagged(rep, old), lib.GBool(rep)))
 	case "Delete":
-		p, v := ifaceVal(h.Delete(o.K))
-		return shOut("RVal " + optVal(p, v))
+		return bare(h.Delete(o.K))
 	case "Get":
 		x, ok := h.Get(o.K)
-		p, v := ifaceVal(x)
-		if ok != p {
-			return "RFault (* Get: ok flag disagrees with value *)"
+		if !ok && x != nil {
+			return "RFault (* Get: a value although the key is reported absent *)"
 		}
-		return shOut("RVal " + optVal(p, v))
+		return shOut("RVal " + flagged(ok, x))
 	case "GetOrDefault":
-		p, v := ifaceVal(h.GetOrDefault(o.K, o.V))
-		return shOut("RVal " + optVal(p, v))
+		return bare(h.GetOrDefault(o.K, o.val()))
 	case "Includes":
 		return shOut("RBool " + lib.GBool(h.Includes(o.K)))
 	case "Compute":
-		v := o.V
-		p, x := ifaceVal(h.ComputeIfAbsent(o.K, func() interface{} { return v }))
-		return shOut("RVal " + optVal(p, x))
+		v := o.val()
+		return bare(h.ComputeIfAbsent(o.K, func() interface{} { return v }))
 	case "ComputePanic":
 		// the mapping function panics; the caller recovers from exactly that panic and goes on using the hash
 		return func() (r shOut) {
@@ -272,17 +301,15 @@ func applyImpl(objs *[]hash.StringHash, o shOp) (res shOut) {
 					panic(x)
 				}
 			}()
-			p, x := ifaceVal(h.ComputeIfAbsent(o.K, func() interface{} { panic(producerPanic{}) }))
-			return shOut("RVal " + optVal(p, x))
+			return bare(h.ComputeIfAbsent(o.K, func() interface{} { panic(producerPanic{}) }))
 		}()
 	case "ComputePut":
 		// the mapping function re-enters the hash: it registers another key first
-		v, k2, v2 := o.V, o.K2, o.V2
-		p, x := ifaceVal(h.ComputeIfAbsent(o.K, func() interface{} {
+		v, k2, v2 := o.val(), o.K2, o.val2()
+		return bare(h.ComputeIfAbsent(o.K, func() interface{} {
 			h.Put(k2, v2)
 			return v
 		}))
-		return shOut("RVal " + optVal(p, x))
 	case "Copy":
 		*objs = append(*objs, h.Copy())
 		return shOut(fmt.Sprintf("RObj %d", len(*objs)-1))
@@ -319,13 +346,13 @@ func applyImpl(objs *[]hash.StringHash, o shOp) (res shOut) {
 		vs := h.Values()
 		gs := make([]string, len(vs))
 		for i, v := range vs {
-			gs[i] = lib.GZ(v.(int64))
+			gs[i] = gVal(v)
 		}
-		return shOut("RVals " + lib.GList(gs, "Z"))
+		return shOut("RVals " + lib.GList(gs, "val"))
 	case "Pairs":
 		gs := []string{}
 		h.EachPair(func(k string, v interface{}) {
-			gs = append(gs, lib.GPair(lib.GStr(k), lib.GZ(v.(int64))))
+			gs = append(gs, lib.GPair(lib.GStr(k), gVal(v)))
 		})
 		return shOut("RPairs " + lib.GList(gs, "str * val"))
 	case "Len":
@@ -341,25 +368,25 @@ func applyImpl(objs *[]hash.StringHash, o shOp) (res shOut) {
 }
 
 // lastIterVals: the values the implementation handed to the callback of the last Iter step (see applyRef)
-var lastIterVals []int64
+var lastIterVals []interface{}
 
-func iterOut(ks []string, vs []int64, res bool) shOut {
+func iterOut(ks []string, vs []interface{}, res bool) shOut {
 	gk := make([]string, len(ks))
 	for i, k := range ks {
 		gk[i] = lib.GStr(k)
 	}
 	gv := make([]string, len(vs))
 	for i, v := range vs {
-		gv[i] = lib.GZ(v)
+		gv[i] = gVal(v)
 	}
-	return shOut(fmt.Sprintf("RIter %s %s %s", lib.GList(gk, "str"), lib.GList(gv, "Z"), lib.GBool(res)))
+	return shOut(fmt.Sprintf("RIter %s %s %s", lib.GList(gk, "str"), lib.GList(gv, "val"), lib.GBool(res)))
 }
 
 // ---- Go reference: the abstract insertion ordered map (direct check D) ----
 
 type refEntry struct {
 	k string
-	v int64
+	v interface{} // nil or int64: a key associated with nil is as present as any other
 }
 type refHash struct {
 	es     []refEntry
@@ -375,17 +402,17 @@ func (r *refHash) find(k string) int {
 	return -1
 }
 
-func (r *refHash) put(k string, v int64) shOut {
+func (r *refHash) put(k string, v interface{}) shOut {
 	if r.frozen {
 		return "RFrozen"
 	}
 	if i := r.find(k); i >= 0 {
 		old := r.es[i].v
 		r.es[i].v = v
-		return shOut(fmt.Sprintf("RPut %s true", optVal(true, old)))
+		return shOut(fmt.Sprintf("RPut %s true", flagged(true, old)))
 	}
 	r.es = append(r.es, refEntry{k, v})
-	return shOut(fmt.Sprintf("RPut %s false", optVal(false, 0)))
+	return shOut(fmt.Sprintf("RPut %s false", flagged(false, nil)))
 }
 
 func (r *refHash) copy() *refHash {
@@ -408,8 +435,8 @@ func applyRef(objs *[]*refHash, o shOp) shOut {
 		// implementation showed is accepted when it is the entry's value at the start or one put meanwhile.
 		start := append([]refEntry{}, h.es...)
 		var ks []string
-		var vs []int64
-		putVals := map[string][]int64{}
+		var vs []interface{}
+		putVals := map[string][]interface{}{}
 		stopped := false
 		for i, e := range start {
 			ks = append(ks, e.k)
@@ -436,16 +463,16 @@ func applyRef(objs *[]*refHash, o shOp) shOut {
 					h.es = append(ne, h.es[j+1:]...)
 				}
 			case "put":
-				if h.put(a.K, a.V) == "RFrozen" {
+				if h.put(a.K, a.val()) == "RFrozen" {
 					return "RFrozen"
 				}
-				putVals[a.K] = append(putVals[a.K], a.V)
+				putVals[a.K] = append(putVals[a.K], a.val())
 			case "compute":
 				if h.find(a.K) < 0 {
 					if h.frozen {
 						return "RFrozen"
 					}
-					h.es = append(h.es, refEntry{a.K, a.V})
+					h.es = append(h.es, refEntry{a.K, a.val()})
 				}
 			}
 			if a.Stop && (o.IK == "AllPair" || o.IK == "AnyPair") {
@@ -465,45 +492,46 @@ func applyRef(objs *[]*refHash, o shOp) shOut {
 		}
 		return iterOut(ks, vs, true)
 	case "Put":
-		return h.put(o.K, o.V)
+		return h.put(o.K, o.val())
 	case "Delete":
 		if h.frozen {
 			return "RFrozen"
 		}
 		i := h.find(o.K)
 		if i < 0 {
-			return shOut("RVal " + optVal(false, 0))
+			return bare(nil)
 		}
 		old := h.es[i].v
 		ne := make([]refEntry, 0, len(h.es))
 		ne = append(ne, h.es[:i]...)
 		ne = append(ne, h.es[i+1:]...)
 		h.es = ne
-		return shOut("RVal " + optVal(true, old))
+		return bare(old)
 	case "Get":
 		if i := h.find(o.K); i >= 0 {
-			return shOut("RVal " + optVal(true, h.es[i].v))
+			return shOut("RVal " + flagged(true, h.es[i].v))
 		}
-		return shOut("RVal " + optVal(false, 0))
+		return shOut("RVal " + flagged(false, nil))
 	case "GetOrDefault":
+		// the value of a present key, whatever it is; the default for an absent key only
 		if i := h.find(o.K); i >= 0 {
-			return shOut("RVal " + optVal(true, h.es[i].v))
+			return bare(h.es[i].v)
 		}
-		return shOut("RVal " + optVal(true, o.V))
+		return bare(o.val())
 	case "Includes":
 		return shOut("RBool " + lib.GBool(h.find(o.K) >= 0))
 	case "Compute":
 		if i := h.find(o.K); i >= 0 {
-			return shOut("RVal " + optVal(true, h.es[i].v))
+			return bare(h.es[i].v)
 		}
 		if h.frozen {
 			return "RFrozen"
 		}
-		h.es = append(h.es, refEntry{o.K, o.V})
-		return shOut("RVal " + optVal(true, o.V))
+		h.es = append(h.es, refEntry{o.K, o.val()})
+		return bare(o.val())
 	case "ComputePanic":
 		if i := h.find(o.K); i >= 0 {
-			return shOut("RVal " + optVal(true, h.es[i].v))
+			return bare(h.es[i].v)
 		}
 		if h.frozen {
 			return "RFrozen"
@@ -511,19 +539,19 @@ func applyRef(objs *[]*refHash, o shOp) shOut {
 		return "RPanic" // nothing was computed, nothing changes
 	case "ComputePut":
 		if i := h.find(o.K); i >= 0 {
-			return shOut("RVal " + optVal(true, h.es[i].v))
+			return bare(h.es[i].v)
 		}
 		if h.frozen {
 			return "RFrozen"
 		}
-		h.put(o.K2, o.V2)
+		h.put(o.K2, o.val2())
 		// a map has one entry per key, whatever the mapping function did
 		if i := h.find(o.K); i >= 0 {
-			h.es[i].v = o.V
+			h.es[i].v = o.val()
 		} else {
-			h.es = append(h.es, refEntry{o.K, o.V})
+			h.es = append(h.es, refEntry{o.K, o.val()})
 		}
-		return shOut("RVal " + optVal(true, o.V))
+		return bare(o.val())
 	case "Copy":
 		*objs = append(*objs, h.copy())
 		return shOut(fmt.Sprintf("RObj %d", len(*objs)-1))
@@ -554,13 +582,13 @@ func applyRef(objs *[]*refHash, o shOp) shOut {
 	case "Values":
 		gs := make([]string, len(h.es))
 		for i, e := range h.es {
-			gs[i] = lib.GZ(e.v)
+			gs[i] = gVal(e.v)
 		}
-		return shOut("RVals " + lib.GList(gs, "Z"))
+		return shOut("RVals " + lib.GList(gs, "val"))
 	case "Pairs":
 		gs := make([]string, len(h.es))
 		for i, e := range h.es {
-			gs[i] = lib.GPair(lib.GStr(e.k), lib.GZ(e.v))
+			gs[i] = lib.GPair(lib.GStr(e.k), gVal(e.v))
 		}
 		return shOut("RPairs " + lib.GList(gs, "str * val"))
 	case "Len":
@@ -593,6 +621,66 @@ func shObservers(h int, keys []string) []shOp {
 		ops = append(ops, shOp{Kind: "Get", H: h, K: k})
 	}
 	return ops
+}
+
+// shObserversFull: every lookup of the interface for every key - Get, GetOrDefault with a default that is not nil
+// and no value of the history, Includes - and Len / Keys / Values / the pairs EachPair hands out: "lookups find
+// exactly the present keys", whatever value a key is associated with
+func shObserversFull(h int, keys []string) []shOp {
+	ops := []shOp{{Kind: "Keys", H: h}, {Kind: "Values", H: h}, {Kind: "Len", H: h}, {Kind: "Pairs", H: h}}
+	for _, k := range keys {
+		ops = append(ops, shOp{Kind: "Get", H: h, K: k}, shOp{Kind: "GetOrDefault", H: h, K: k, V: 77},
+			shOp{Kind: "Includes", H: h, K: k})
+	}
+	return ops
+}
+
+// shNilFamily: bounded-exhaustive histories in which keys are associated with the Go value nil: Put(k, nil) of a new
+// and of an existing key, a value put over nil, ComputeIfAbsent whose mapping function returns nil / finds nil, a
+// re-entrant mapping function and a re-entrant callback that put nil, Delete, Copy, Freeze; nil arriving through
+// Merge / PutAll at the end; the full observation (all lookups of all keys) after every step.
+func shNilFamily(maxLen int, yield func(ops []shOp)) {
+	al := []shOp{
+		{Kind: "Put", K: "a", VN: true}, {Kind: "Put", K: "a"}, {Kind: "Put", K: "b", VN: true}, {Kind: "Put", K: "b"},
+		{Kind: "Delete", K: "a"}, {Kind: "Delete", K: "b"},
+		{Kind: "Compute", K: "a", VN: true}, {Kind: "Compute", K: "b"}, {Kind: "ComputePanic", K: "a"},
+		{Kind: "ComputePut", K: "b", K2: "a", V2N: true}, {Kind: "ComputePut", K: "a", VN: true, K2: "c", V2: 5},
+		{Kind: "Iter", IK: "EachPair", Acts: []shAct{{A: "put", K: "b", VN: true}, {A: "compute", K: "c", VN: true}}},
+		{Kind: "Copy"}, {Kind: "Freeze"},
+	}
+	keys := []string{"a", "b", "c"}
+	var rec func(seq []shOp, l int)
+	rec = func(seq []shOp, l int) {
+		if len(seq) == l {
+			ops := []shOp{{Kind: "New"}}
+			nobj := 1
+			for i, o := range seq {
+				o.V = int64(10 + i)
+				ops = append(ops, o)
+				if o.Kind == "Copy" {
+					nobj++
+				}
+				ops = append(ops, shObserversFull(0, keys)...)
+			}
+			if nobj > 1 {
+				// nil arrives through Merge and PutAll, in both directions
+				ops = append(ops, shOp{Kind: "Equals", H: 0, O: 1}, shOp{Kind: "Equals", H: 1, O: 0},
+					shOp{Kind: "Merge", H: 1, O: 0}, shOp{Kind: "Merge", H: 0, O: 1})
+				ops = append(ops, shObserversFull(nobj, keys)...)
+				ops = append(ops, shObserversFull(nobj+1, keys)...)
+				ops = append(ops, shOp{Kind: "PutAll", H: 1, O: 0})
+				ops = append(ops, shObserversFull(1, keys)...)
+			}
+			yield(ops)
+			return
+		}
+		for _, o := range al {
+			rec(append(seq[:len(seq):len(seq)], o), l)
+		}
+	}
+	for l := 1; l <= maxLen; l++ {
+		rec(nil, l)
+	}
 }
 
 type shCase struct {
@@ -688,9 +776,9 @@ func randomActs(r *lib.Rng, keys []string) []shAct {
 		case x < 5:
 			acts[i] = shAct{A: "del", K: k}
 		case x < 7:
-			acts[i] = shAct{A: "put", K: k, V: int64(5 + r.Intn(5))}
+			acts[i] = shAct{A: "put", K: k, V: int64(5 + r.Intn(5)), VN: r.Chance(1, 5)}
 		case x < 8:
-			acts[i] = shAct{A: "compute", K: k, V: int64(5 + r.Intn(5))}
+			acts[i] = shAct{A: "compute", K: k, V: int64(5 + r.Intn(5)), VN: r.Chance(1, 5)}
 		}
 		acts[i].Stop = r.Chance(1, 8)
 	}
@@ -773,16 +861,17 @@ func randomShHistory(r *lib.Rng, n int) []shOp {
 		o := r.Intn(nobj)
 		k := keys[r.Intn(len(keys))]
 		v := int64(r.Intn(5))
+		vn := r.Chance(1, 5) // the value is nil
 		var op shOp
 		switch x := r.Intn(100); {
 		case x < 4:
 			op = shOp{Kind: "Iter", H: h, IK: shIterKinds[r.Intn(len(shIterKinds))], Acts: randomActs(r, keys)}
 		case x < 30:
-			op = shOp{Kind: "Put", H: h, K: k, V: v}
+			op = shOp{Kind: "Put", H: h, K: k, V: v, VN: vn}
 		case x < 50:
 			op = shOp{Kind: "Delete", H: h, K: k}
 		case x < 53:
-			op = shOp{Kind: "Compute", H: h, K: k, V: v}
+			op = shOp{Kind: "Compute", H: h, K: k, V: v, VN: vn}
 		case x < 54:
 			op = shOp{Kind: "ComputePanic", H: h, K: k}
 		case x < 56:
@@ -791,10 +880,10 @@ func randomShHistory(r *lib.Rng, n int) []shOp {
 				// the mapping function puts ANOTHER key (the same key: open finding, see shCorpus)
 				op = shOp{Kind: "Compute", H: h, K: k, V: v}
 			} else {
-				op = shOp{Kind: "ComputePut", H: h, K: k, V: v, K2: k2, V2: int64(r.Intn(5))}
+				op = shOp{Kind: "ComputePut", H: h, K: k, V: v, VN: vn, K2: k2, V2: int64(r.Intn(5)), V2N: r.Chance(1, 5)}
 			}
 		case x < 60:
-			op = shOp{Kind: "GetOrDefault", H: h, K: k, V: v}
+			op = shOp{Kind: "GetOrDefault", H: h, K: k, V: 70 + v, VN: r.Chance(1, 8)}
 		case x < 64:
 			op = shOp{Kind: "Includes", H: h, K: k}
 		case x < 68:
@@ -839,7 +928,7 @@ func randomShHistory(r *lib.Rng, n int) []shOp {
 		}
 	}
 	for h := 0; h < nobj; h++ {
-		ops = append(ops, shObservers(h, keys)...)
+		ops = append(ops, shObserversFull(h, keys)...)
 	}
 	return ops
 }
@@ -890,7 +979,24 @@ func shCorpus() [][]shOp {
 		return []shOp{{Kind: "New"}, {Kind: "Put", K: "a", V: 1}, {Kind: "Put", K: "b", V: 2}, {Kind: "Freeze"},
 			{Kind: "Iter", IK: kind, Acts: acts}, {Kind: "Pairs"}}
 	}
+	// keys associated with nil (seeded C09-m10): put, re-put, through Copy / Merge / PutAll / Freeze / a mapping
+	// function that returns nil, every lookup afterwards
+	nilRoutes := func() []shOp {
+		ks := []string{"a", "b", "c", "z"}
+		ops := []shOp{{Kind: "New"}, {Kind: "Put", K: "a", V: 1}, {Kind: "Put", K: "b", VN: true}}
+		ops = append(ops, shObserversFull(0, ks)...)
+		ops = append(ops, shOp{Kind: "Compute", K: "b", V: 5}, shOp{Kind: "Compute", K: "c", VN: true}, shOp{Kind: "Compute", K: "c", V: 6})
+		ops = append(ops, shObserversFull(0, ks)...)
+		ops = append(ops, shOp{Kind: "Copy"}, shOp{Kind: "New"}, shOp{Kind: "Put", H: 2, K: "z", V: 3}, shOp{Kind: "Merge", H: 2, O: 0},
+			shOp{Kind: "PutAll", H: 2, O: 1}, shOp{Kind: "Put", K: "a", VN: true}, shOp{Kind: "Freeze"})
+		for h := 0; h < 4; h++ {
+			ops = append(ops, shObserversFull(h, ks)...)
+		}
+		return append(ops, shOp{Kind: "Equals", H: 0, O: 1}, shOp{Kind: "Equals", H: 2, O: 3}, shOp{Kind: "Delete", H: 1, K: "b"},
+			shOp{Kind: "Delete", H: 1, K: "b"}, shOp{Kind: "Put", H: 1, K: "c", V: 4}, shOp{Kind: "Pairs", H: 1})
+	}
 	return [][]shOp{
+		nilRoutes(),
 		// re-entrant callbacks: remove every visited key; remove the even values; remove the entry that follows
 		iter(4, 4, nil, "EachKey", del("a"), del("b"), del("c"), del("d")),
 		iter(8, 5, []int64{2, 4, 1, 6, 3}, "EachPair", del("a"), del("b"), shAct{}, del("d"), shAct{}),
